@@ -24,8 +24,10 @@ directive in an emitted (non-skeleton) file => exit status non-zero."""
 import re
 
 CLS = "CLS ::= CLASS { &id INTEGER UNIQUE, &Type } WITH SYNTAX { ID &id TYPE &Type }"
-SETS = ("S1 CLS ::= { { ID 1 TYPE INTEGER } | { ID 2 TYPE BOOLEAN } }\n"
-        "S2 CLS ::= { { ID 3 TYPE NULL } }")
+# row types are written as references: a built-in type there is finding C18-builtin-row-type (`{ "&Type", ,` in the table)
+ROWTYPES = ["Flag ::= BOOLEAN", "Count ::= INTEGER", "Label ::= IA5String", "Nil ::= NULL"]
+SETS = ("S1 CLS ::= { { ID 1 TYPE Count } | { ID 2 TYPE Flag } }\n"
+        "S2 CLS ::= { { ID 3 TYPE Nil } }")
 WIDE = "-fwide-types"
 
 
@@ -35,7 +37,7 @@ def ioc_seq(name, objset, cls="CLS"):
 
 # id -> (support assignments [(text, n_units)], bad type text for a name, flags the refusal needs, the emitter's own diagnostic)
 def _wide(v):
-    return {"support": [CLS, "SW%s CLS ::= { { ID 10 TYPE BOOLEAN } | { ID %s TYPE IA5String } }" % (str(v).replace("-", "m"), v)],
+    return {"support": ROWTYPES + [CLS, "SW%s CLS ::= { { ID 10 TYPE Flag } | { ID %s TYPE Label } }" % (str(v).replace("-", "m"), v)],
             "bad": lambda n, v=v: ioc_seq(n, "SW%s" % str(v).replace("-", "m")), "needs": {WIDE}, "fatal": r"Unsupported value .* range for type"}
 
 
@@ -43,22 +45,22 @@ REFUSALS = {
     "ioc-int-32768-wide": _wide(32768),
     "ioc-int-70000-wide": _wide(70000),
     "ioc-int-neg-wide": _wide(-1),
-    "ioc-id-boolean": {"support": ["CB ::= CLASS { &id BOOLEAN UNIQUE, &Type } WITH SYNTAX { ID &id TYPE &Type }",
-                                   "SB CB ::= { { ID TRUE TYPE INTEGER } | { ID FALSE TYPE BOOLEAN } }"],
+    "ioc-id-boolean": {"support": ROWTYPES + ["CB ::= CLASS { &id BOOLEAN UNIQUE, &Type } WITH SYNTAX { ID &id TYPE &Type }",
+                                   "SB CB ::= { { ID TRUE TYPE Count } | { ID FALSE TYPE Flag } }"],
                        "bad": lambda n: ioc_seq(n, "SB", "CB"), "needs": set(), "fatal": r"Unsupported type BOOLEAN for value"},
-    "objset-mismatch": {"support": [CLS] + SETS.split("\n"),
+    "objset-mismatch": {"support": ROWTYPES + [CLS] + SETS.split("\n"),
                         "bad": lambda n: "%s ::= SEQUENCE { id CLS.&id ({S1}), value CLS.&Type ({S2}{@id}) }" % n, "needs": set(),
                         "fatal": r"Object set reference on line \d+ differs"},
-    "selector-unknown-member": {"support": [CLS] + SETS.split("\n"),
+    "selector-unknown-member": {"support": ROWTYPES + [CLS] + SETS.split("\n"),
                                 "bad": lambda n: "%s ::= SEQUENCE { id CLS.&id ({S1}), value CLS.&Type ({S1}{@nope}) }" % n, "needs": set(),
                                 "fatal": r"Can not find \"nope\""},
-    "selector-not-class-field": {"support": [CLS] + SETS.split("\n"),
+    "selector-not-class-field": {"support": ROWTYPES + [CLS] + SETS.split("\n"),
                                  "bad": lambda n: "%s ::= SEQUENCE { id INTEGER, value CLS.&Type ({S1}{@id}) }" % n, "needs": set(),
                                  "fatal": r"Does not look like id is a CLASS field reference"},
-    "selector-dotted": {"support": [CLS] + SETS.split("\n"),
+    "selector-dotted": {"support": ROWTYPES + [CLS] + SETS.split("\n"),
                         "bad": lambda n: "%s ::= SEQUENCE { h SEQUENCE { id CLS.&id ({S1}) }, value CLS.&Type ({S1}{@h.id}) }" % n, "needs": set(),
                         "fatal": r"Can not find \"h.id\""},
-    "selector-two-ats": {"support": [CLS] + SETS.split("\n"),
+    "selector-two-ats": {"support": ROWTYPES + [CLS] + SETS.split("\n"),
                          "bad": lambda n: "%s ::= SEQUENCE { id CLS.&id ({S1}), value CLS.&Type ({S1}{@id,@id}) }" % n, "needs": set(),
                          "fatal": r"Do not know how to handle complex IoS constraints"},
     "external": {"support": [], "bad": lambda n: "%s ::= EXTERNAL" % n, "needs": set(), "fatal": r"Cannot compile"},
@@ -134,11 +136,15 @@ def plain_modules():
             items = {"first": sup + [bad] + g, "middle": sup + g[:2] + [bad] + g[2:], "last": sup + g + [bad]}[pos]
             out.append(module("Fp%s%s" % (nm, pos.capitalize()), items, refusal=rid, position=pos))
     # the handled neighbours of the refused cell values: nothing fails under any flag set
-    items = [(CLS, T())]
+    items = [(t, T()) for t in ROWTYPES] + [(CLS, T())]
     for v in WIDE_OK:
-        items.append(("SV%d CLS ::= { { ID 10 TYPE BOOLEAN } | { ID %d TYPE IA5String } }" % (v, v), T()))
+        items.append(("SV%d CLS ::= { { ID 10 TYPE Flag } | { ID %d TYPE Label } }" % (v, v), T()))
         items.append((ioc_seq("Cell%d" % v, "SV%d" % v), T(nmemb=2)))
     out.append(module("FpWideCellsHandled", items, refusal=None, position="none"))
+    # a site that prints FATAL and returns 0 ("TEMPORARY FIXME" in emit_ioc_value): OBJECT IDENTIFIER identifiers (finding C18-oid-identifier)
+    items = [(t, T()) for t in ROWTYPES] + [("CO ::= CLASS { &id OBJECT IDENTIFIER UNIQUE, &Type } WITH SYNTAX { ID &id TYPE &Type }", T()),
+             ("SO CO ::= { { ID {1 2 3} TYPE Count } | { ID {1 2 4} TYPE Flag } }", T()), good(0, "Ok0"), (ioc_seq("Keyed", "SO", "CO"), T(nmemb=2)), good(1, "Ok1")]
+    out.append(module("FpOidIdentifier", items, refusal=None, position="fatal-returns-0"))
     # two modules in one file: the failing unit in the first / in the second module
     for pos in ("first", "second"):
         rid = "selector-unknown-member"
@@ -162,46 +168,46 @@ def plain_modules():
 
 # ---- a failing SPECIALIZATION among the specializations of one parameterized type
 def spec_forms():
-    """-> [(form id, support items, template text, [good instantiation texts], bad instantiation text, refusal id)]"""
+    """-> [(form id, support items, template text, [good instantiation texts], [two failing instantiation texts], refusal id)]
+    The good instantiations name DIFFERENT object sets: two specializations sharing an object set are finding
+    C10-param-objset-table-per-specialization (module FsSharedObjset is its witness)."""
+    rows = [(t, T()) for t in ROWTYPES]
     forms = []
-    forms.append(("Alias", [], "Al {T} ::= T", ["Al {INTEGER}", "Al {BOOLEAN}", "Al {IA5String}"], "Al {EXTERNAL}", "external"))
-    forms.append(("AliasPdv", [], "Al {T} ::= T", ["Al {NULL}", "Al {OCTET STRING}", "Al {REAL}"], "Al {EMBEDDED PDV}", "embedded-pdv"))
-    forms.append(("Mismatch", [(CLS, T())] + [(s, T()) for s in SETS.split("\n")],
+    forms.append(("Alias", [], "Al {T} ::= T", ["Al {INTEGER}", "Al {BOOLEAN}", "Al {IA5String}"], ["Al {EXTERNAL}", None], "external"))
+    forms.append(("AliasPdv", [], "Al {T} ::= T", ["Al {NULL}", "Al {OCTET STRING}", "Al {REAL}"], ["Al {EMBEDDED PDV}", None], "embedded-pdv"))
+    forms.append(("Mismatch", rows + [(CLS, T())] + [(s, T()) for s in SETS.split("\n")] + [("S3 CLS ::= { { ID 4 TYPE Label } }", T())],
                   "Fr {CLS:SA, CLS:SB, X} ::= SEQUENCE { id CLS.&id ({SA}), value CLS.&Type ({SB}{@id}), x X }",
-                  ["Fr {{S1},{S1},INTEGER}", "Fr {{S2},{S2},NULL}", "Fr {{S1},{S1},BOOLEAN}"], "Fr {{S1},{S2},IA5String}", "objset-mismatch"))
-    forms.append(("WideCell", [(CLS, T()), ("SW CLS ::= { { ID 10 TYPE BOOLEAN } | { ID 70000 TYPE IA5String } }", T()), ("SN CLS ::= { { ID 1 TYPE BOOLEAN } | { ID 2 TYPE INTEGER } }", T())],
+                  ["Fr {{S1},{S1},INTEGER}", "Fr {{S2},{S2},NULL}", "Fr {{S3},{S3},BOOLEAN}"], ["Fr {{S1},{S2},IA5String}", "Fr {{S2},{S3},UTF8String}"], "objset-mismatch"))
+    forms.append(("WideCell", rows + [(CLS, T()), ("SW CLS ::= { { ID 10 TYPE Flag } | { ID 70000 TYPE Label } }", T()), ("SX CLS ::= { { ID 32768 TYPE Count } }", T()),
+                                      ("SN1 CLS ::= { { ID 1 TYPE Flag } | { ID 2 TYPE Count } }", T()), ("SN2 CLS ::= { { ID 3 TYPE Nil } }", T()),
+                                      ("SN3 CLS ::= { { ID 32767 TYPE Label } | { ID 128 TYPE Nil } }", T())],
                   "Frame {CLS:Set, Extra} ::= SEQUENCE { id CLS.&id ({Set}), value CLS.&Type ({Set}{@id}), extra Extra }",
-                  ["Frame {{SN},INTEGER}", "Frame {{SN},NULL}", "Frame {{SN},OCTET STRING}"], "Frame {{SW},BOOLEAN}", "ioc-int-70000-wide"))
+                  ["Frame {{SN1},INTEGER}", "Frame {{SN2},NULL}", "Frame {{SN3},OCTET STRING}"], ["Frame {{SW},BOOLEAN}", "Frame {{SX},REAL}"], "ioc-int-70000-wide"))
     return forms
 
 
 def spec_modules():
     out = []
-    for fi, (fid, sup, tmpl, goods, bad, rid) in enumerate(spec_forms()):
+    for fi, (fid, sup, tmpl, goods, bads, rid) in enumerate(spec_forms()):
         nmemb = 0 if fid.startswith("Alias") else 3
         for pi, where in enumerate([(0,), (1,), (2,), (0, 2)]):
-            insts, specs = [], []
             # instantiation order = specialization order (asn1f_parameterization_fork appends on first use)
-            order = []
-            gi = 0
+            order, gi, bi = [], 0, 0
             for k in range(3):
                 if k in where:
-                    order.append(("bad", bad))
+                    if bads[bi] is None:         # one failing actual list only: used twice, it is ONE specialization; a good one takes the slot
+                        order.append(("bad", bads[0]))
+                    else:
+                        order.append(("bad", bads[bi]))
+                    bi += 1
                 else:
                     order.append(("good", goods[gi]))
                     gi += 1
-            if where == (0, 2):
-                # two DIFFERENT failing specializations need two different failing actual lists
-                bad2 = bad.replace("IA5String", "UTF8String").replace("BOOLEAN}", "REAL}") if fid in ("Mismatch", "WideCell") else None
-                if bad2 is None:
-                    order = [("bad", bad), ("good", goods[0]), ("good", goods[1])] + [("again", bad)]    # the same failing list used twice: ONE specialization
-                else:
-                    order[2] = ("bad", bad2)
-            seen = {}
+            insts, specs, seen = [], [], {}
             for kind, text in order:
                 if text not in seen:
                     seen[text] = len(specs)
-                    specs.append(T(rid=rid if kind in ("bad", "again") else None, nmemb=nmemb))
+                    specs.append(T(rid=rid if kind == "bad" else None, nmemb=nmemb))
                 insts.append(("I%d ::= %s" % (len(insts), text), T()))
             tunit = (tmpl, S(specs))
             g = [good(fi + k, "Ok%d" % k) for k in range(2)]
@@ -216,6 +222,12 @@ def spec_modules():
                 items = head + g + insts + [tunit]
             out.append(module("Fs%s%s" % (fid, "".join(str(w) for w in where)), dedup(items), refusal=rid, position="spec-%s/template-%s" % ("+".join(map(str, where)), tpos),
                               needs_compound=True))
+    # witness of finding C10-param-objset-table-per-specialization: every unit compiles, two specializations share an object set
+    rows = [(t, T()) for t in ROWTYPES]
+    items = rows + [(CLS, T()), ("SN1 CLS ::= { { ID 1 TYPE Flag } | { ID 2 TYPE Count } }", T()),
+                    ("Frame {CLS:Set, Extra} ::= SEQUENCE { id CLS.&id ({Set}), value CLS.&Type ({Set}{@id}), extra Extra }", S([T(nmemb=3), T(nmemb=3)])),
+                    ("I0 ::= Frame {{SN1},INTEGER}", T()), ("I1 ::= Frame {{SN1},NULL}", T())]
+    out.append(module("FsSharedObjset", items, refusal=None, position="spec-none/shared-object-set", needs_compound=True))
     return out
 
 
